@@ -189,7 +189,10 @@ pub type HOut = Option<(Vec<usize>, u32, Vec<i32>, Vec<i32>)>;
 pub fn run_impl(c: &HCase) -> HOut {
     let nx = c.w.len();
     let ny = c.my.len();
-    let mut a = Array2::<i32>::zeros([nx, ny]);
+    // the memory layout is not part of the contract: every third matrix (by its content) is handed over in column-major order
+    use ndarray::ShapeBuilder;
+    let colmajor = (c.w.iter().flatten().map(|z| *z as i64).sum::<i64>() + nx as i64) % 3 == 0;
+    let mut a = if colmajor { Array2::<i32>::zeros((nx, ny).f()) } else { Array2::<i32>::zeros([nx, ny]) };
     for x in 0..nx {
         for y in 0..ny {
             a[[x, y]] = c.w[x][y];
